@@ -353,7 +353,7 @@ def r5(repo, res):
 
     f = repo.func("diplotype::write_decomposition")
     Mut = _c.namedtuple("Mutation", ["pos", "op"])
-    F1, S1, S2, AD = Mut(250, "C>T"), Mut(150, "T>A"), Mut(350, "G>A"), Mut(450, "insA")
+    F1, S1, S2, AD = Mut(250, "C>T"), Mut(150, "T>A"), Mut(350, "G>A"), Mut(150, "insA")   # an insertion at the site of a substitution the same copy carries
     minor = lambda muts: Obj(neutral_muts=set(muts))  # noqa
     gene = Obj(name="G", alleles={"1": Obj(func_muts=set(), minors={"1.001": minor([]), "1.002": minor([S1])}),
                                   "3": Obj(func_muts={F1}, minors={"3.001": minor([S2])})},
@@ -397,7 +397,7 @@ def r5(repo, res):
     for c in cells:
         if len(c) >= 12:
             by_copy.setdefault(c[5], []).append(c)
-    want = {"0": [("", "", "", "")], "1": [("150", "T>A", "12", "rs2"), ("450", "insA", "4", "-")], "2": [("250", "C>T", "11", "rs1")]}
+    want = {"0": [("", "", "", "")], "1": [("150", "T>A", "12", "rs2"), ("150", "insA", "4", "-")], "2": [("250", "C>T", "11", "rs1")]}
     got = {k_: [(c[7], c[8], c[9], c[11]) for c in v_] for k_, v_ in by_copy.items()}
     ok = got == want and all(c[0] == "S" and c[1] == "G" and c[2] == "7" and c[3] == "*1/*1+*3" and c[4] == "1.001;1.002;3.001" for c in cells) \
         and [c[6] for c in cells] == ["1.001", "1.002", "1.002", "3.001"] \
@@ -418,7 +418,7 @@ def r5(repo, res):
     got2 = {}
     for c in [r.split("\t") for r in rows]:
         got2.setdefault(c[5], []).append((c[7], c[8]))
-    want2 = {"0": [("450", "insA")], "1": [("150", "T>A")], "2": [("250", "C>T"), ("350", "G>A")]}
+    want2 = {"0": [("150", "insA")], "1": [("150", "T>A")], "2": [("250", "C>T"), ("350", "G>A")]}
     res.ob("C12.R5", f, f, k != "raise" and got2 == want2 and set(gene.alleles["1"].minors["1.002"].neutral_muts) == {S1},
            expected="copies of the same minor allele are written independently: gains and losses of one copy do not show on the next",
            found=str(got2), clause="per allele copy, exactly the variants that copy is reported to carry", key="decomposition-repeated-minor")
@@ -450,9 +450,12 @@ def r6(repo, res):
     F1, S1, S2 = Mut(250, "C>T"), Mut(150, "T>A"), Mut(350, "G>A")
     minor = lambda muts: Obj(neutral_muts=set(muts))  # noqa
     gene = Obj(name="G", chr="22", alleles={"1": Obj(func_muts=set(), minors={"1.002": minor([S1])}),
-                                            "3": Obj(func_muts={F1}, minors={"3.001": minor([S2])})},
-               get_functional=lambda m, infer=True: {F1: "P34S"}.get(Mut(*m)),
+                                            "3": Obj(func_muts={F1}, minors={"3.001": minor([S2])}),
+                                            "13#3": Obj(func_muts={F1}, minors={"13#3.001": minor([S2])})},
+               get_functional=lambda m, infer=True: {F1: "P34S"}.get(Mut(*m)), is_functional=lambda m, infer=True: Mut(*m) == F1,
+               deletion_allele=lambda: "5", mutations={F1: ("P34S", "rs1"), S1: (None, "rs2"), S2: (None, "-")},
                get_rsid=lambda m, default=True: {F1: "rs1", S1: "rs2"}.get(Mut(*m), f"{m[0] + 1}.{m[1]}" if default else "-"))
+    shown = dict(major_solution=Obj(cn_solution=Obj(gene=gene)), profile=Obj(display_format=False))   # what the display helpers of a solution consult
     support = {F1: 11, S1: 12, S2: 0}  # S2 is carried although no read covers its position: it is reported all the same
 
     class Cov:
@@ -499,7 +502,8 @@ def r6(repo, res):
     params = [a.arg for a in f.args.args]
     # two solutions in one file: every column describes its own solution
     outm = []
-    two = [minor_solution(repo, solution=[A1(), A3()], get_major_diplotype=lambda: "*1 / *3"), minor_solution(repo, solution=[A3(), A3(), A1()], get_major_diplotype=lambda: "*3 / *3 + *1")]
+    two = [minor_solution(repo, solution=[A1(), A3()], get_major_diplotype=lambda: "*1 / *3", **shown),
+           minor_solution(repo, solution=[A3(), A3(), A1()], get_major_diplotype=lambda: "*3 / *3 + *1", **shown)]
     try:
         k, v = Evaluator({"sample": "S", "gene": gene, "minors": two, "f": "FILE", "version": "0", "coverage": Cov()},
                          funcs={"print": lambda *a, sep=" ", end="\n", file=None: outm.append(sep.join(str(x) for x in a)), "td": lambda t: t,
@@ -531,13 +535,23 @@ def r6(repo, res):
     scenarios.append(("a copy that lost a variant of its definition", [A1(), lost()],
                       [["22", "151", "rs2", "T", "A", "1|0", "12", "*1,-", "*1.002,-"],
                        ["22", "251", "rs1", "C", "T", "0|1", "11", "-,*3", "-,*3.001"]]))
+    fused = lambda: Rec(major="13#3", minor="13#3.001", added=[], missing=[])  # noqa  a fusion-derived major allele: reported under its full name
+    scenarios.append(("a fusion-derived copy", [A1(), fused()],
+                      [["22", "151", "rs2", "T", "A", "1|0", "12", "*1,-", "*1.002,-"],
+                       ["22", "251", "rs1", "C", "T", "0|1", "11", "-,*13#3", "-,*13#3.001"],
+                       ["22", "351", "-", "G", "A", "0|1", "0", "-,*13#3", "-,*13#3.001"]]))
+    novel = lambda: Rec(major="1", minor="1.002", added=[F1], missing=[])  # noqa  a copy reported as *1.002 with an added core variant
+    scenarios.append(("a copy that gained a core variant", [novel(), A3()],
+                      [["22", "151", "rs2", "T", "A", "1|0", "12", "*1,-", "*1.002,-"],
+                       ["22", "251", "rs1", "C", "T", "1|1", "11", "*1,*3", "*1.002,*3.001"],
+                       ["22", "351", "-", "G", "A", "0|1", "0", "-,*3", "-,*3.001"]]))
     for label, sol, want in scenarios:
         out = []
 
         def pr(*a, sep=" ", end="\n", file=None):
             out.append(sep.join(str(x) for x in a))
 
-        minors = [minor_solution(repo, solution=sol, get_major_diplotype=lambda: "*x")]
+        minors = [minor_solution(repo, solution=sol, get_major_diplotype=lambda: "*x", **shown)]
         env = {"sample": "S", "gene": gene, "minors": minors, "f": "FILE", "version": "0", "coverage": Cov()}
         unknown = [a for a in params if a not in env]
         if unknown:
